@@ -93,6 +93,14 @@ func (p *Parser) ExtractImportsWithInfo(file *ast.File, info *types.Info) map[st
 		imports[pkgName.Name()] = path
 	}
 
+	// An explicit alias always stands for its own package: the guessed name of an unaliased
+	// import ("v2" for .../lib/v2) may have taken its place above.
+	for _, imp := range file.Imports {
+		if imp.Name != nil && imp.Name.Name != "_" && imp.Name.Name != "." {
+			imports[imp.Name.Name] = strings.Trim(imp.Path.Value, "\"")
+		}
+	}
+
 	return imports
 }
 
